@@ -43,9 +43,11 @@ func (fr *frame) execCall(instr ssa.Value, c *ssa.CallCommon, st *State, env map
 		sig, _ = c.Value.Type().Underlying().(*types.Signature)
 		name = "funcvalue"
 	}
+	// a declared swallow covers the declaring function and the private helpers inlined into it (the
+	// declaration stays valid when the swallowing code is moved into a helper)
 	swallowed := false
-	if fr.contract != nil {
-		for _, sw := range fr.contract.Swallows {
+	for _, sws := range vc.swallowStack {
+		for _, sw := range sws {
 			if strings.Contains(name, sw) {
 				swallowed = true
 			}
